@@ -81,19 +81,13 @@ def nextNU : List Ch → Bool
 
 def cls? (o : Option Ch) : Option C := o.map (·.cls)
 
-def lbVerdict (left right : List Ch) : V :=
-  match left, right with
-  | [], _ => .no                                               -- LB2
-  | _, [] => .must                                             -- LB3
-  | l :: ls, r :: rs =>
-    if l.cls == BK then .must                                  -- LB4
-    else if l.cls == CR && r.cls == LF then .no                -- LB5
-    else if l.cls == CR || l.cls == LF || l.cls == NL then .must
-    else if hard r.cls then .no                                -- LB6
-    else if r.cls == SP || r.cls == ZW then .no                -- LB7
-    else if zwsp (l :: ls) then .can                           -- LB8
-    else if l.cls == ZWJ then .no                              -- LB8a
-    else if isCMZ r.cls && isBase l.cls then .no               -- LB9
+/-- LB6–LB31: is a break opportunity (÷) allowed? (`false` = ×); never mandatory -/
+def lbOpp (l : Ch) (ls : List Ch) (r : Ch) (rs : List Ch) : Bool :=
+    if hard r.cls then false                                -- LB6
+    else if r.cls == SP || r.cls == ZW then false                -- LB7
+    else if zwsp (l :: ls) then true                           -- LB8
+    else if l.cls == ZWJ then false                              -- LB8a
+    else if isCMZ r.cls && isBase l.cls then false               -- LB9
     else
       let U := units (l :: ls)
       let L := cls? U.head?
@@ -103,45 +97,55 @@ def lbVerdict (left right : List Ch) : V :=
       let R := if isCMZ r.cls then AL else r.cls               -- LB10
       let Rea := !isCMZ r.cls && r.ea
       let bs := beforeSp U
-      if R == WJ || L == some WJ then .no                      -- LB11
-      else if L == some GL then .no                            -- LB12
-      else if R == GL && !(L == some SP || L == some BA || L == some HY) then .no   -- LB12a
-      else if R == EX then .no                                 -- LB13 (tailored: [^NU] × CL|CP|IS|SY)
-      else if (R == CL || R == CP || R == IS || R == SY) && L != some NU then .no
-      else if bs == some OP then .no                           -- LB14
-      else if R == OP && bs == some QU then .no                -- LB15
-      else if R == NS && (bs == some CL || bs == some CP) then .no   -- LB16
-      else if R == B2 && bs == some B2 then .no                -- LB17
-      else if L == some SP then .can                           -- LB18
-      else if R == QU || L == some QU then .no                 -- LB19
-      else if R == CB || L == some CB then .can                -- LB20
-      else if R == BA || R == HY || R == NS || L == some BB then .no   -- LB21
-      else if L1 == some HL && (L == some HY || L == some BA) then .no -- LB21a
-      else if L == some SY && R == HL then .no                 -- LB21b
-      else if R == IN then .no                                 -- LB22
-      else if (L == some AL || L == some HL) && R == NU then .no       -- LB23
-      else if L == some NU && isALHL R then .no
-      else if L == some PR && (R == ID || R == EB || R == EM) then .no -- LB23a
-      else if (L == some ID || L == some EB || L == some EM) && R == PO then .no
-      else if (L == some PR || L == some PO) && isALHL R then .no      -- LB24
-      else if (L == some AL || L == some HL) && isPRPO R then .no
-      else if (L == some PR || L == some PO) && (R == NU || ((R == OP || R == HY) && nextNU rs)) then .no  -- LB25 (Example 7)
-      else if (L == some OP || L == some HY) && R == NU then .no
-      else if numRun U && (R == NU || R == SY || R == IS || R == CL || R == CP) then .no
-      else if (numRun U || numClosed U) && isPRPO R then .no
-      else if L == some JL && (R == JL || R == JV || R == H2 || R == H3) then .no   -- LB26
-      else if (L == some JV || L == some H2) && (R == JV || R == JT) then .no
-      else if (L == some JT || L == some H3) && R == JT then .no
-      else if (L == some JL || L == some JV || L == some JT || L == some H2 || L == some H3) && R == PO then .no   -- LB27
-      else if L == some PR && isJ R then .no
-      else if (L == some AL || L == some HL) && isALHL R then .no      -- LB28
-      else if L == some IS && isALHL R then .no                        -- LB29
-      else if (L == some AL || L == some HL || L == some NU) && R == OP && !Rea then .no   -- LB30
-      else if L == some CP && !Lea && (isALHL R || R == NU) then .no
-      else if L == some RI && R == RI && riRun U % 2 == 1 then .no     -- LB30a
-      else if L == some EB && R == EM then .no                         -- LB30b
-      else if Lep && R == EM then .no
-      else .can                                                        -- LB31
+      if R == WJ || L == some WJ then false                      -- LB11
+      else if L == some GL then false                            -- LB12
+      else if R == GL && !(L == some SP || L == some BA || L == some HY) then false   -- LB12a
+      else if R == EX then false                                 -- LB13 (tailored: [^NU] × CL|CP|IS|SY)
+      else if (R == CL || R == CP || R == IS || R == SY) && L != some NU then false
+      else if bs == some OP then false                           -- LB14
+      else if R == OP && bs == some QU then false                -- LB15
+      else if R == NS && (bs == some CL || bs == some CP) then false   -- LB16
+      else if R == B2 && bs == some B2 then false                -- LB17
+      else if L == some SP then true                           -- LB18
+      else if R == QU || L == some QU then false                 -- LB19
+      else if R == CB || L == some CB then true                -- LB20
+      else if R == BA || R == HY || R == NS || L == some BB then false   -- LB21
+      else if L1 == some HL && (L == some HY || L == some BA) then false -- LB21a
+      else if L == some SY && R == HL then false                 -- LB21b
+      else if R == IN then false                                 -- LB22
+      else if (L == some AL || L == some HL) && R == NU then false       -- LB23
+      else if L == some NU && isALHL R then false
+      else if L == some PR && (R == ID || R == EB || R == EM) then false -- LB23a
+      else if (L == some ID || L == some EB || L == some EM) && R == PO then false
+      else if (L == some PR || L == some PO) && isALHL R then false      -- LB24
+      else if (L == some AL || L == some HL) && isPRPO R then false
+      else if (L == some PR || L == some PO) && (R == NU || ((R == OP || R == HY) && nextNU rs)) then false  -- LB25 (Example 7)
+      else if (L == some OP || L == some HY) && R == NU then false
+      else if numRun U && (R == NU || R == SY || R == IS || R == CL || R == CP) then false
+      else if (numRun U || numClosed U) && isPRPO R then false
+      else if L == some JL && (R == JL || R == JV || R == H2 || R == H3) then false   -- LB26
+      else if (L == some JV || L == some H2) && (R == JV || R == JT) then false
+      else if (L == some JT || L == some H3) && R == JT then false
+      else if (L == some JL || L == some JV || L == some JT || L == some H2 || L == some H3) && R == PO then false   -- LB27
+      else if L == some PR && isJ R then false
+      else if (L == some AL || L == some HL) && isALHL R then false      -- LB28
+      else if L == some IS && isALHL R then false                        -- LB29
+      else if (L == some AL || L == some HL || L == some NU) && R == OP && !Rea then false   -- LB30
+      else if L == some CP && !Lea && (isALHL R || R == NU) then false
+      else if L == some RI && R == RI && riRun U % 2 == 1 then false     -- LB30a
+      else if L == some EB && R == EM then false                         -- LB30b
+      else if Lep && R == EM then false
+      else true                                                        -- LB31
+
+def lbVerdict (left right : List Ch) : V :=
+  match left, right with
+  | [], _ => .no                                               -- LB2
+  | _, [] => .must                                             -- LB3
+  | l :: ls, r :: rs =>
+    if l.cls == BK then .must                                  -- LB4
+    else if l.cls == CR && r.cls == LF then .no                -- LB5
+    else if l.cls == CR || l.cls == LF || l.cls == NL then .must
+    else if lbOpp l ls r rs then .can else .no
 
 /-! ## summary automaton -/
 inductive Num | none | run | closed
@@ -175,18 +179,13 @@ def summ : List Ch → Q
   | [] => q0
   | x :: xs => qstep (summ xs) x
 
-def qout (q : Q) (r : Ch) (nNU : Bool) : V :=
-  match q.lastRaw with
-  | none => .no
-  | some l =>
-    if l == BK then .must
-    else if l == CR && r.cls == LF then .no
-    else if l == CR || l == LF || l == NL then .must
-    else if hard r.cls then .no
-    else if r.cls == SP || r.cls == ZW then .no
-    else if q.zw then .can
-    else if l == ZWJ then .no
-    else if isCMZ r.cls && isBase l then .no
+/-- LB6–LB31 on the summary -/
+def qoutOpp (q : Q) (l : C) (r : Ch) (nNU : Bool) : Bool :=
+    if hard r.cls then false
+    else if r.cls == SP || r.cls == ZW then false
+    else if q.zw then true
+    else if l == ZWJ then false
+    else if isCMZ r.cls && isBase l then false
     else
       let L := cls? q.u0
       let Lea := (q.u0.map (·.ea)) == some true
@@ -194,45 +193,54 @@ def qout (q : Q) (r : Ch) (nNU : Bool) : V :=
       let R := if isCMZ r.cls then AL else r.cls
       let Rea := !isCMZ r.cls && r.ea
       let bs := q.bs
-      if R == WJ || L == some WJ then .no
-      else if L == some GL then .no
-      else if R == GL && !(L == some SP || L == some BA || L == some HY) then .no
-      else if R == EX then .no
-      else if (R == CL || R == CP || R == IS || R == SY) && L != some NU then .no
-      else if bs == some OP then .no
-      else if R == OP && bs == some QU then .no
-      else if R == NS && (bs == some CL || bs == some CP) then .no
-      else if R == B2 && bs == some B2 then .no
-      else if L == some SP then .can
-      else if R == QU || L == some QU then .no
-      else if R == CB || L == some CB then .can
-      else if R == BA || R == HY || R == NS || L == some BB then .no
-      else if q.u1hl && (L == some HY || L == some BA) then .no
-      else if L == some SY && R == HL then .no
-      else if R == IN then .no
-      else if (L == some AL || L == some HL) && R == NU then .no
-      else if L == some NU && isALHL R then .no
-      else if L == some PR && (R == ID || R == EB || R == EM) then .no
-      else if (L == some ID || L == some EB || L == some EM) && R == PO then .no
-      else if (L == some PR || L == some PO) && isALHL R then .no
-      else if (L == some AL || L == some HL) && isPRPO R then .no
-      else if (L == some PR || L == some PO) && (R == NU || ((R == OP || R == HY) && nNU)) then .no
-      else if (L == some OP || L == some HY) && R == NU then .no
-      else if (q.num == .run) && (R == NU || R == SY || R == IS || R == CL || R == CP) then .no
-      else if ((q.num == .run) || (q.num == .closed)) && isPRPO R then .no
-      else if L == some JL && (R == JL || R == JV || R == H2 || R == H3) then .no
-      else if (L == some JV || L == some H2) && (R == JV || R == JT) then .no
-      else if (L == some JT || L == some H3) && R == JT then .no
-      else if (L == some JL || L == some JV || L == some JT || L == some H2 || L == some H3) && R == PO then .no
-      else if L == some PR && isJ R then .no
-      else if (L == some AL || L == some HL) && isALHL R then .no
-      else if L == some IS && isALHL R then .no
-      else if (L == some AL || L == some HL || L == some NU) && R == OP && !Rea then .no
-      else if L == some CP && !Lea && (isALHL R || R == NU) then .no
-      else if L == some RI && R == RI && q.odd then .no
-      else if L == some EB && R == EM then .no
-      else if Lep && R == EM then .no
-      else .can
+      if R == WJ || L == some WJ then false
+      else if L == some GL then false
+      else if R == GL && !(L == some SP || L == some BA || L == some HY) then false
+      else if R == EX then false
+      else if (R == CL || R == CP || R == IS || R == SY) && L != some NU then false
+      else if bs == some OP then false
+      else if R == OP && bs == some QU then false
+      else if R == NS && (bs == some CL || bs == some CP) then false
+      else if R == B2 && bs == some B2 then false
+      else if L == some SP then true
+      else if R == QU || L == some QU then false
+      else if R == CB || L == some CB then true
+      else if R == BA || R == HY || R == NS || L == some BB then false
+      else if q.u1hl && (L == some HY || L == some BA) then false
+      else if L == some SY && R == HL then false
+      else if R == IN then false
+      else if (L == some AL || L == some HL) && R == NU then false
+      else if L == some NU && isALHL R then false
+      else if L == some PR && (R == ID || R == EB || R == EM) then false
+      else if (L == some ID || L == some EB || L == some EM) && R == PO then false
+      else if (L == some PR || L == some PO) && isALHL R then false
+      else if (L == some AL || L == some HL) && isPRPO R then false
+      else if (L == some PR || L == some PO) && (R == NU || ((R == OP || R == HY) && nNU)) then false
+      else if (L == some OP || L == some HY) && R == NU then false
+      else if (q.num == .run) && (R == NU || R == SY || R == IS || R == CL || R == CP) then false
+      else if ((q.num == .run) || (q.num == .closed)) && isPRPO R then false
+      else if L == some JL && (R == JL || R == JV || R == H2 || R == H3) then false
+      else if (L == some JV || L == some H2) && (R == JV || R == JT) then false
+      else if (L == some JT || L == some H3) && R == JT then false
+      else if (L == some JL || L == some JV || L == some JT || L == some H2 || L == some H3) && R == PO then false
+      else if L == some PR && isJ R then false
+      else if (L == some AL || L == some HL) && isALHL R then false
+      else if L == some IS && isALHL R then false
+      else if (L == some AL || L == some HL || L == some NU) && R == OP && !Rea then false
+      else if L == some CP && !Lea && (isALHL R || R == NU) then false
+      else if L == some RI && R == RI && q.odd then false
+      else if L == some EB && R == EM then false
+      else if Lep && R == EM then false
+      else true
+
+def qout (q : Q) (r : Ch) (nNU : Bool) : V :=
+  match q.lastRaw with
+  | none => .no
+  | some l =>
+    if l == BK then .must
+    else if l == CR && r.cls == LF then .no
+    else if l == CR || l == LF || l == NL then .must
+    else if qoutOpp q l r nNU then .can else .no
 
 /-! ## the summary computes the features of the declarative reading -/
 theorem units_cons (x : Ch) (xs : List Ch) :
@@ -311,6 +319,6 @@ theorem lbVerdict_factor (left : List Ch) (r : Ch) (rs : List Ch) :
   | nil => rfl
   | cons l ls =>
     obtain ⟨h1, h2, h3, h4, h5, h6, h7, h8⟩ := inv_all (l :: ls)
-    simp only [lbVerdict, qout, h1, h2, h3, h4, h5, h6, h7, h8, cls?, List.head?_cons, Option.map_some]
+    simp only [lbVerdict, lbOpp, qout, qoutOpp, h1, h2, h3, h4, h5, h6, h7, h8, cls?, List.head?_cons, Option.map_some]
     rfl
 end Uniseg.Spec.LB
